@@ -84,6 +84,8 @@ def weave(repo, dst, variant="A", features=(), quiet=False):
     for c in C.CONTRACTS:
         if variant == "B" and c.get("stubbed_in_b"):
             continue
+        if c.get("variant_only") and c["variant_only"] != variant:
+            continue
         by_file.setdefault(c["file"], []).append(c)
     for rel, cs in by_file.items():
         p = os.path.join(dst, rel)
@@ -120,7 +122,9 @@ def weave(repo, dst, variant="A", features=(), quiet=False):
     # (2) harness modules + (3) spec
     for rel, hfile in C.MODULES:
         # a_*.rs only exist in variant A, b_*.rs only in variant B (hand-written stubs vs. contract attributes)
-        if (variant == "A" and re.match(r"(g_)?b_", hfile)) or (variant == "B" and re.match(r"(g_)?a_", hfile)):
+        # a_* : variants A and C;  b_* : variant B only;  c_* : variant C only (A + contracts marked variant_only="C")
+        if (variant in ("A", "C") and re.match(r"(g_)?b_", hfile)) or (variant == "B" and re.match(r"(g_)?[ac]_", hfile)) \
+                or (variant != "C" and re.match(r"(g_)?c_", hfile)):
             continue
         p = os.path.join(dst, rel)
         if not os.path.exists(p):
